@@ -14,6 +14,8 @@ class C04F(FutProp):
     drv = 'C04F'
     props_modules = ['CylcModel.Props.C04F']
     theorems = [
+        'CylcModel.C04F.future_offset_meaning',
+        'CylcModel.C04F.future_offset_of_instance',
         'CylcModel.C04F.cached_offset_bracket',
         'CylcModel.C04F.cached_offset_invariant',
         'CylcModel.C04F.cached_offset_recomputed',
@@ -37,7 +39,11 @@ class C04F(FutProp):
         'update sites (add_to_pool / remove, only when the task definition of that proxy has an offset; a changed value forces '
         'compute_runahead at once), the limit extended by the cached maximum and capped at the stop point, spawn_task\'s '
         'refusal of an instance with a prerequisite beyond the stop point incl. the database row it leaves), for EVERY instance '
-        'graph and EVERY op list / state: (1) in every state of every run the cached maximum lies between the largest future '
+        'graph and EVERY op list / state: (0) the future offset of an instance is the largest distance to a prerequisite atom '
+        '(suicide ones included) at a later cycle, however the trigger is written - cycle-relative x[+P2] or relative to the '
+        'initial cycle point x[^+P2] (future_offset_meaning; the JSON layer computes it from the atoms of the instance graph, '
+        'never from tdef.max_future_prereq_offset: future_offset_of_instance / wfFut; what the implementation records per '
+        'instance is compared with it on every run by judge clause R0); (1) in every state of every run the cached maximum lies between the largest future '
         'offset of the pooled instances and the largest future offset of the pooled tasks over all their instances '
         '(cached_offset_bracket = judge clause R3; cached_offset_invariant in elementary terms; the two ends coincide unless a '
         'task has instances with different offsets - the code raises the offset of a task definition lazily, so exact '
@@ -66,17 +72,18 @@ class C04F(FutProp):
                'the ghost neighbours (graph children / parents up to the final point) are read off the real '
                'generate_graph_children / generate_graph_parents']
     rule = ('generated integer-cycling workflows (2-6 tasks, 1-3 recurrences P1 / P2 / +P1/P2 / R1 / R1/$ / R1/+P1, AND/OR triggers, '
-            'inter-cycle offsets -P1/-P2 and FUTURE offsets +P1/+P2 on 30 % of the candidate triggers in any section - at the '
+            'inter-cycle offsets -P1/-P2, FUTURE offsets +P1/+P2 on 30 % and initial-cycle-point-relative future offsets ^+P1..^+P3 on '
+            '12 % of the candidate triggers in any section (mixed in one expression; the parent is put on P1) - at the '
             'final cycle point they refer beyond the final point -, optional / custom outputs, suicide triggers, retries, '
             'runahead P0-P3, up to 6 cycles, configured stop point in 30 %, warm starts) driven through the real Scheduler by '
             'a seeded adaptive schedule: kinds fut (every job completes), futany (failures, submit failures, duplicate / '
             'stale / out-of-order messages), futcmd (any outcomes + cylc stop <point> at a third of the commands, hold / '
-            'release / hold point, pause, stop + restart); 16 hand-written workflow/schedule pairs run first (two dependants '
+            'release / hold point, pause, stop + restart); 19 hand-written workflow/schedule pairs run first (two dependants '
             'with different offsets, offset depending on the cycle, prerequisite beyond the stop point, future trigger at the '
             'final point only, child behind the base point); compared after every op: everything the Sched2 correspondence '
             'compares + the pool in get_tasks() order, the cached max_future_offset, the max_future_prereq_offset of every '
             'task definition, the cached base point; the judge recomputes the limit from the observed pool (R1 release-sound, '
-            'R2 no-deadlock, R3 cache-sound); non-trivial = the workflow has a future trigger; classes = (kind, offset seen, '
+            'R2 no-deadlock, R3 cache-sound, R0 offset-recorded; offsets from the atoms of the instance graph); non-trivial = the workflow has a future trigger; classes = (kind, offset seen, '
             'offset dropped, base point moved backward, stop point moved / tasks beyond it, limit binds, ending)')
 
 
